@@ -20,8 +20,8 @@ ASSUMPTIONS = ['an expansion that raises (NotImplementedError, TacticException, 
                'another sequent / needs extra hypotheses, is a violation',
                'premises are represented by placeholder lines stating the premise sequents (gaps allowed for them)',
                'Z3 is stubbed during library replay as in server/monitor.py (the validity of z3 steps is C06)']
-REQUIRED = {'quick': {'evals_observed': 1500, 'expansions_checked': 1200, 'expansions_agree': 1000, 'macros_expanded_min': 1},
-            'thorough': {'evals_observed': 30000, 'expansions_checked': 15000, 'expansions_agree': 12000, 'macros_expanded_min': 1}}
+REQUIRED = {'quick': {'arith_offers': 3000, 'arith_accepted:nat_const_ineq': 5, 'evals_observed': 1500, 'expansions_checked': 1200, 'expansions_agree': 1000, 'macros_expanded_min': 1},
+            'thorough': {'arith_offers': 100000, 'arith_accepted:nat_const_ineq': 100, 'evals_observed': 30000, 'expansions_checked': 15000, 'expansions_agree': 12000, 'macros_expanded_min': 1}}
 SHARD_TIMEOUT = {'quick': 1500, 'thorough': 7200}
 
 
@@ -29,7 +29,8 @@ def shards(tier, seed):
     q = tier == 'quick'
     return ([{'kind': 'lib', 'i': i, 'parts': 13 if q else 40, 'frac': 0.07 if q else 1.0, 'budget': 260 if q else 2500} for i in range(13 if q else 40)] +
             [{'kind': 'gen', 'i': i, 'count': 300 if q else 4000} for i in range(2 if q else 6)] +
-            [{'kind': 'hist', 'i': 0, 'count': 120 if q else 1500}])
+            [{'kind': 'hist', 'i': 0, 'count': 120 if q else 1500}] +
+            [{'kind': 'arith', 'i': i, 'count': 500 if q else 5000} for i in range(1 if q else 4)])
 
 
 class Mon:
@@ -154,6 +155,8 @@ def wrap(name, macro):
                     c.case(k, nontrivial=(macro.level or 0) >= 1)
                     if Mon.mutate and len(prev_list) >= 1 and Mon.rng.random() < 0.25:
                         mutated(c, name, macro, orig, args, prev_list)
+                    if Mon.mutate and Mon.rng.random() < 0.35:
+                        retyped(c, name, macro, orig, args, prev_list)
             except S.ShadowError:
                 c.count('shadow_error')
             return th
@@ -186,6 +189,71 @@ def mutated(ctx, name, macro, orig, args, prev_list):
         return
     ctx.count('mutation_accepted_by_eval')
     expansion_check(ctx, name, macro, args, pl, th, 'mutation:' + kind)
+
+
+def retype_shadow(s, Tf, Tt):
+    """the same term at another numeric type: every occurrence of the type Tf becomes Tt, except inside numerals
+    (of_nat applied to a binary numeral keeps its nat argument)"""
+    def ty(T):
+        if T == Tf:
+            return Tt
+        if T[0] == 'tc':
+            return ('tc', T[1], tuple(ty(a) for a in T[2]))
+        return T
+
+    def rec(t):
+        k = t[0]
+        if k in ('var', 'svar', 'const'):
+            return (k, t[1], ty(t[2]))
+        if k == 'comb':
+            f, a = t[1], t[2]
+            if f[0] == 'const' and f[1] == 'of_nat' and f[2][0] == 'tc' and f[2][1] == 'fun' and f[2][2][0] == S.NAT:
+                from vf import arith as A_
+                if A_.binary(a) is not None:
+                    return ('comb', ('const', 'of_nat', S.fun(S.NAT, ty(f[2][2][1]))), a)
+            return ('comb', rec(f), rec(a))
+        if k == 'abs':
+            return ('abs', t[1], ty(t[2]), rec(t[3]))
+        return t
+    return rec(s)
+
+
+def retyped(ctx, name, macro, orig, args, prev_list):
+    """the same arguments at another numeric type (nat / int / real): a macro written for one of them must either
+    refuse, or expand to a proof of what it evaluated to"""
+    from kernel.term import Term
+    from kernel import theory
+    if not isinstance(args, Term):
+        return
+    s = S.tm_shadow(args)
+    present = [T for T in (S.NAT, S.INT, S.REAL) if any(T == x or T in S.type_parts(x) for x in S.term_types(s))] \
+        if hasattr(S, 'type_parts') else [T for T in (S.NAT, S.INT, S.REAL) if repr(T) in repr(s)]
+    if not present:
+        return
+    rng = Mon.rng
+    Tf = rng.choice(present)
+    Tt = rng.choice([T for T in (S.NAT, S.INT, S.REAL) if T != Tf])
+    s2 = retype_shadow(s, Tf, Tt)
+    if s2 == s:
+        return
+    try:
+        S.typeof(s2)
+        t2 = S.to_repo_term(s2)
+        theory.thy.check_term(t2)          # filter only: every constant at an instance of its declared type
+    except Exception:
+        ctx.count('retype_not_well_formed')
+        return
+    ctx.count('retype_tried')
+    try:
+        th = orig(t2, prev_list)
+    except Exception:
+        ctx.count('retype_rejected_by_eval')
+        return
+    if th is None:
+        return
+    ctx.count('retype_accepted_by_eval')
+    ctx.count('retype_accepted_by_eval:' + name)
+    expansion_check(ctx, name, macro, t2, prev_list, th, 'mutation:retype')
 
 
 # ------------------------------------------------------------------ workloads
@@ -252,6 +320,67 @@ def run_gen(ctx, spec):
             macro.eval(S.to_repo_term(goal), [])
         except Exception:
             ctx.count('gen_eval_rejected:' + which)
+
+
+ARITH_MACROS = ['nat_const_ineq', 'nat_const_less', 'nat_const_less_eq', 'nat_norm', 'int_eq_comparison', 'int_eq_macro',
+                'omega_norm_int_ineq', 'real_eq_comparison', 'real_norm', 'fun_upd_eval']
+
+
+def run_arith(ctx, spec):
+    """generated goals for the arithmetic macros that HAVE an expansion, each offered goals at nat, int and real
+    (a macro written for one numeric type must refuse the others or expand to what it evaluated to)"""
+    from logic import basic
+    from vf import arith as A
+    from vf.props import c05
+    libreplay.prepare()
+    install(ctx)
+    basic.load_theory('real')
+    import data.function     # noqa
+    from kernel import theory
+    rng = ctx.rng
+    Mon.origin = 'arith'
+    Mon.rng = rng
+    Mon.mutate = False
+    Mon.budget = 10 ** 9
+    B = S.BOOL
+    macros = [m for m in ARITH_MACROS if m in theory.global_macros]
+    for k in range(spec['count']):
+        T = rng.choice([S.NAT, S.INT, S.REAL])
+        shape = rng.choice(['num-rel', 'num-rel', 'expr-rel', 'comm', 'fun_upd'])
+        try:
+            if shape == 'num-rel':
+                a, b = c05.gen_num(rng, T, hostile=False, small=True), c05.gen_num(rng, T, hostile=False, small=True)
+            else:
+                a, b = c05.gen_expr(rng, T, rng.choice([1, 2])), c05.gen_expr(rng, T, rng.choice([0, 1]))
+        except Exception:
+            continue
+        if shape == 'comm':
+            x, y = ('var', 'x', T), ('var', 'y', T)
+            op = rng.choice(['plus', 'times'])
+            goal = A.rel('equals', T, A.binop(op, T, A.binop(op, T, x, a), y), A.binop(op, T, y, A.binop(op, T, a, x)))
+        elif shape == 'fun_upd':
+            f = ('var', 'f', S.fun(T, T))
+            upd = S.mk_comb(('const', 'fun_upd', S.funs(S.fun(T, T), T, T, S.fun(T, T))), f, a, b)
+            k2 = a if rng.random() < 0.5 else c05.gen_num(rng, T, hostile=False, small=True)
+            lhs = ('comb', upd, k2)
+            goal = A.rel('equals', T, lhs, b if k2 == a else ('comb', f, k2))
+        else:
+            r = rng.choice(['less', 'less_eq', 'equals', 'nequals', 'greater', 'greater_eq'])
+            goal = A.neg_p(A.rel('equals', T, a, b)) if r == 'nequals' else A.rel(r, T, a, b)
+        try:
+            S.typeof(goal)
+            g = S.to_repo_term(goal)
+        except Exception:
+            ctx.count('arith_goal_not_built')
+            continue
+        for m in macros:
+            ctx.count('arith_offers')
+            try:
+                theory.global_macros[m].eval(g, [])
+                ctx.count('arith_accepted:' + m)
+                ctx.count('arith_accepted_at:%s:%s' % (m, T[1]))
+            except Exception:
+                ctx.count('arith_refused')
 
 
 def run_hist(ctx, spec):
@@ -368,6 +497,8 @@ def run_shard(ctx, spec):
         run_lib(ctx, spec)
     elif spec['kind'] == 'gen':
         run_gen(ctx, spec)
+    elif spec['kind'] == 'arith':
+        run_arith(ctx, spec)
     else:
         run_hist(ctx, spec)
     n = len([k for k in ctx.counters if k.startswith('expanded:')])
